@@ -261,22 +261,20 @@ def coq_deps(target_v):
 def coq_prove(prop, timeout=1500):
     """Build coq/<prop>/Properties_<prop>.vo (full .vo build) and collect per-theorem assumptions.
     Returns dict(obligations, discharged, failed=[names], axioms={thm: [..]}, log, files)."""
-    coq_project()
     rel = "%s/Properties_%s" % (prop, prop)
     vfile = os.path.join(COQ, rel + ".v")
     thms = theorems_in(vfile)
     res = {"obligations": len(thms), "discharged": 0, "failed": [], "axioms": {}, "log": "", "theorems": [t for t, _ in thms],
            "forbidden": [], "bad_axioms": []}
     t0 = time.time()
-    with _Lock(os.path.join(COQ, ".make.lock")):
+    with _Lock(os.path.join(CACHE, "coq-make.lock")):
+        coq_project()
         rc, out, err = sh(["make", "-k", "-j%d" % NPROC, rel + ".vo"], cwd=COQ, timeout=timeout)
     res["make_s"] = round(time.time() - t0, 1)
     res["log"] = (out + err)[-6000:]
     ok = rc == 0 and os.path.exists(os.path.join(COQ, rel + ".vo"))
     # forbidden tokens anywhere in the files this property depends on
-    rc2, deps, _ = sh("coqdep -Q . Kenlm -sort $(find . -name '*.v' ! -name 'Assumptions_*' ! -name 'cases_*') 2>/dev/null", cwd=COQ)
-    allv = [os.path.join(COQ, v) for v in deps.split() if v.endswith(".v")]
-    # restrict to transitive deps of the property file
+    # forbidden tokens are searched in the transitive dependencies of the property file
     res["files"] = transitive_deps(vfile)
     res["forbidden"] = grep_forbidden(res["files"])
     if not ok:
@@ -364,10 +362,9 @@ def transitive_deps(vfile):
 def ocaml_model(prop, timeout=600):
     """Build ocaml/_build/<prop>_model from coq/extracted/<prop>_model.ml(i) (written by the Coq build
     of <prop>/Extract_<prop>.v) and ocaml/<prop>_driver.ml.  Returns path of the executable."""
-    coq_project()
     rel = "%s/Extract_%s" % (prop, prop)
-    os.makedirs(os.path.join(COQ, "extracted"), exist_ok=True)
-    with _Lock(os.path.join(COQ, ".make.lock")):
+    with _Lock(os.path.join(CACHE, "coq-make.lock")):
+        coq_project()
         rc, out, err = sh(["make", "-j%d" % NPROC, rel + ".vo"], cwd=COQ, timeout=timeout)
     if rc != 0:
         raise ModelBroken("the executable model of %s no longer compiles in Coq:\n%s" % (prop, (out + err)[-3000:]))
@@ -429,6 +426,7 @@ class Ctx:
         self.scratch = os.path.join(CACHE, "scratch", "%s-%d" % (prop, os.getpid()))
         os.makedirs(self.scratch, exist_ok=True)
         self.counts = {}
+        self.reported = {}
 
     @property
     def quick(self):
@@ -454,6 +452,10 @@ class Ctx:
                     self.known_hits.append(signature)
                     print("KNOWN-FINDING: property=%s %s" % (self.prop, k.get("what", what)))
                 return False
+        if signature in self.reported:
+            self.reported[signature] += 1
+            return True
+        self.reported[signature] = 1
         os.makedirs(self.replay_dir, exist_ok=True)
         idx = len(self.violations)
         path = os.path.join(self.replay_dir, "%s-seed%d-%d.json" % (self.tier, self.seed, idx))
